@@ -3,6 +3,7 @@ C01 — property theorems (statements, short proofs from the lemmas, non-vacuity
 Helper lemmas: Proofs.lean (arithmetic, decision), Run.lean (histories + ghosts), Window.lean (rolling window).
 -/
 import GoZero.C01.Conc
+import GoZero.C01.Sites
 namespace GoZero.C01
 
 /-! ## 1. admission law -/
@@ -260,5 +261,114 @@ theorem conc_window_is_log (env : Env) (t0 : Nat) (c : Cfg) (h : Reach env t0 c)
 /-- non-vacuity: two goroutines interleave — thread 0 takes its snapshot, 7 ns pass, thread 1 takes its own -/
 example : ∃ c, Reach ⟨fun _ => 0, fun _ => ⟨false, false⟩, fun _ => .errU⟩ 3 c ∧ c.pc 0 = 1 ∧ c.pc 1 = 1 ∧ c.clock = 10 :=
   ⟨_, Reach.step _ _ 1 (Reach.tick _ 7 (Reach.step _ _ 0 Reach.init rfl)) rfl, rfl, rfl, rfl⟩
+
+/-! ## 7. the call sites that wrap the breaker -/
+
+/-- zrpc/internal/codes/accept.go as a table: exactly DeadlineExceeded(4), ResourceExhausted(8), Unimplemented(12),
+Internal(13), Unavailable(14), DataLoss(15) count against the callee; every other code (in particular OK, Canceled,
+Unknown, InvalidArgument, NotFound, AlreadyExists, PermissionDenied, Unauthenticated …) is acceptable. -/
+theorem codeAcceptable_table (c : Nat) :
+    codeAcceptable c = false ↔ c = 4 ∨ c = 8 ∨ c = 12 ∨ c = 13 ∨ c = 14 ∨ c = 15 := by
+  simp only [codeAcceptable, cDeadlineExceeded, cInternal, cUnavailable, cDataLoss, cUnimplemented, cResourceExhausted]
+  by_cases h : c = 4 ∨ c = 13 ∨ c = 14 ∨ c = 15 ∨ c = 12 ∨ c = 8
+  · simp only [h, decide_true, Bool.not_true, true_iff]; omega
+  · simp only [h, decide_false, Bool.not_false, Bool.true_eq_false, false_iff]; omega
+
+/-- **Every site, every request: exactly one of Accept / Reject per admitted request, chosen by the site's predicate;
+exactly one drop and no execution per rejected request.**  `rest`: Accept iff the recorded status is < 500 (whether or
+not the handler panics: the deferred function resolves the promise exactly once and the panic propagates); the
+`doReq` sites: Accept iff the site's predicate holds of the request's error, a panic is a Reject and is re-raised. -/
+theorem site_exactly_one (s : Site) (q : SiteReq) :
+    (smarksOf (siteEvents s .reject q) = [.drop] ∧ (siteEvents s .reject q).count .ranReq = 0
+      ∧ (siteEvents s .reject q).getLast? = some (.returned s.rejectRet))
+    ∧ (smarksOf (siteEvents s .pass q) = [if s ≠ .rest ∧ q.panics then .fail else if s.pred q then .succ else .fail]
+      ∧ (siteEvents s .pass q).count .ranReq = 1
+      ∧ (siteEvents s .pass q).getLast? = some (if q.panics then .repanicked else .returned (s.admitRet q))) := by
+  refine ⟨⟨rfl, rfl, rfl⟩, ?_⟩
+  cases s <;> by_cases hp : q.panics = true <;> simp [siteEvents, smarksOf, hp, Site.admitRet] <;>
+    (try split) <;> simp_all
+
+/-- a nil result satisfies the predicate of every `doReq` site -/
+theorem pred_nil (s : Site) (hs : s ≠ .rest) (q : SiteReq) (h : q.err = .none) : s.pred q = true := by
+  cases s <;> first
+    | exact absurd rfl hs
+    | simp [Site.pred, h, ErrClass.grpcCode, codeAcceptable, sqlAcceptable, cDeadlineExceeded, cInternal, cUnavailable,
+        cDataLoss, cUnimplemented, cResourceExhausted]
+
+theorem site_marks_pass (s : Site) (hs : s ≠ .rest) (q : SiteReq) :
+    smarksOf (siteEvents s .pass q) = [if q.panics then .fail else if s.pred q then .succ else .fail] := by
+  cases s <;> first
+    | exact absurd rfl hs
+    | (by_cases hp : q.panics = true <;> simp [siteEvents, smarksOf, hp])
+
+theorem doReq_marks_pass (o : Outcome) :
+    marksOf (doReqEvents .pass ⟨false, true⟩ o) = [if o = .panic then .fail else if acceptable true o then .succ else .fail] := by
+  cases o <;> decide
+
+/-- the `doReq` sites are instances of the generic decision table (`accounting_admitted` / `accounting_rejected`):
+what they record is what `DoWithAcceptable` records for the outcome `ok / acceptable error / other error / panic`
+the site's predicate assigns to the request. -/
+theorem site_refines_doReq (s : Site) (hs : s ≠ .rest) (v : Verdict) (q : SiteReq) :
+    smarksOf (siteEvents s v q) = marksOf (doReqEvents v ⟨false, true⟩ (s.outcome q)) := by
+  cases v
+  · rw [site_marks_pass s hs q, doReq_marks_pass]
+    unfold Site.outcome
+    by_cases hp : q.panics = true
+    · simp [hp]
+    · by_cases hn : q.err = .none
+      · simp [hp, hn, pred_nil s hs q hn, acceptable]
+      · by_cases hq : s.pred q = true <;> simp [hp, hn, hq, acceptable]
+  · cases s <;> simp [siteEvents, smarksOf, doReqEvents, marksOf]
+
+/-- the server side never blames the client's own deadline on the callee … it does: `context.DeadlineExceeded` and a
+nested open breaker are failures on the server side even though their gRPC code (Unknown) is acceptable -/
+theorem server_rejects_deadline_and_open_breaker (q : SiteReq) (h : q.err = .ctxDeadline ∨ q.err = .brkOpen) :
+    Site.zrpcServerUnary.pred q = false ∧ Site.zrpcServerStream.pred q = false ∧ Site.zrpcClient.pred q = true := by
+  rcases h with h | h <;> simp [Site.pred, h, ErrClass.grpcCode, codeAcceptable, cUnknown, cDeadlineExceeded, cInternal,
+    cUnavailable, cDataLoss, cUnimplemented, cResourceExhausted]
+
+/-- non-vacuity: a 499 is an Accept, a 500 a Reject, and a rejected request writes 503 without running the handler -/
+example : siteEvents .rest .pass { code := 499 } = [.ranReq, .mark .succ, .returned .same]
+    ∧ siteEvents .rest .pass { code := 500 } = [.ranReq, .mark .fail, .returned .same]
+    ∧ siteEvents .rest .reject { code := 200 } = [.mark .drop, .returned .http503] := by decide
+
+/-! ## 8. one breaker per name (breakers.go) -/
+
+theorem Registry.find_set_self (r : Registry) (name : String) (b : Breaker) : (r.set name b).find name = some b := by
+  induction r with
+  | nil => simp [Registry.set, Registry.find]
+  | cons p rest ih =>
+    obtain ⟨n, b0⟩ := p
+    by_cases h : n = name <;> simp [Registry.set, Registry.find, h, ih]
+
+theorem Registry.find_set_other (r : Registry) (name other : String) (b : Breaker) (h : other ≠ name) :
+    (r.set name b).find other = r.find other := by
+  induction r with
+  | nil => simp [Registry.set, Registry.find, h.symm]
+  | cons p rest ih =>
+    obtain ⟨n, b0⟩ := p
+    by_cases h1 : n = name
+    · subst h1
+      have : ¬ n = other := fun e => h e.symm
+      simp [Registry.set, Registry.find, this]
+    · by_cases h2 : n = other
+      · subst h2; simp [Registry.set, Registry.find, h1]
+      · simp [Registry.set, Registry.find, h1, h2, ih]
+
+/-- **calls under one name never touch the breaker of another name**, and they act on the breaker that
+`GetBreaker(name)` hands out (created at first use, the same one ever after). -/
+theorem named_isolation (r : Registry) (name other : String) (now : Nat) (f : Breaker → Breaker) (h : other ≠ name) :
+    (r.with name now f).find other = r.find other
+    ∧ (r.with name now f).find name = some (f (r.get name now).1)
+    ∧ (∀ b, r.find name = some b → (r.get name now).1 = b) := by
+  refine ⟨?_, Registry.find_set_self _ _ _, ?_⟩
+  · unfold Registry.with
+    rw [Registry.find_set_other _ _ _ _ h]
+    unfold Registry.get
+    cases hf : r.find name with
+    | some b => rfl
+    | none => exact Registry.find_set_other _ _ _ _ h
+  · intro b hb
+    simp [Registry.get, hb]
 
 end GoZero.C01
